@@ -177,7 +177,7 @@ def _wrap(ns, body):
 
 def _enum_cpp(node):
     fields = ', '.join(node[2]) if node[2] else ''
-    return f'enum struct {node[1]} {{ {fields} }};'
+    return f'enum struct {D.nid(node[1])[-1]} {{ {fields} }};'
 
 
 def mock_header(model, guard=None, probe_include='verif_probe.hh'):
@@ -194,7 +194,7 @@ def mock_header(model, guard=None, probe_include='verif_probe.hh'):
            f'#include "{probe_include}"']
     for dec in decls:
         if dec.kind == 'enum' and not _is_nested(decls, dec):
-            out.append(_wrap(dec.scope, _enum_cpp(dec.node)))
+            out.append(_wrap(dec.fqn[:-1], _enum_cpp(dec.node)))      # (a multi-identifier name opens namespaces)
     for dec in decls:
         if dec.kind == 'interface':
             events = facts.interface_events(dec)
@@ -213,16 +213,16 @@ def mock_header(model, guard=None, probe_include='verif_probe.hh'):
             enums = ' '.join(_enum_cpp(t) for t in dec.node[2] if t[0] == 'enum')
             con = ' '.join((f'provided.out.{e.name} = required.out.{e.name};' if e.direction == 'out'
                             else f'required.in.{e.name} = provided.in.{e.name};') for e in events)
-            name = dec.node[1]
+            name = dec.fqn[-1]
             body = (f'struct {name} {{ {enums} dzn::port::meta meta; struct {{ {ins} }} in; struct {{ {outs} }} out; '
                     f'inline {name}(const dzn::port::meta& m) : meta(m) {{}} '
                     f'void check_bindings() const {{ {chk} }} }}; '
                     f'inline void connect({name}& provided, {name}& required) {{ {con} '
                     'provided.meta.require = required.meta.require; required.meta.provide = provided.meta.provide; }')
-            out.append(_wrap(dec.scope, body))
+            out.append(_wrap(dec.fqn[:-1], body))
     for dec in decls:
         if dec.kind in ('component', 'system') and dec.fqn == facts.enc.fqn:
-            name = dec.node[1]
+            name = dec.fqn[-1]
             members, inits, chks = [], [], []
             for p in facts.ports:
                 if p.injected:
@@ -242,7 +242,7 @@ def mock_header(model, guard=None, probe_include='verif_probe.hh'):
                     f'{"".join(", " + i for i in inits)} '
                     '{ verif::registry().note_component(this, &l, l.try_get<dzn::pump>(), l.try_get<dzn::runtime>()); } '
                     f'void check_bindings() const {{ {" ".join(chks)} }} }};')
-            out.append(_wrap(dec.scope, body))
+            out.append(_wrap(dec.fqn[:-1], body))
     out.append('#endif')
     return '\n'.join(out) + '\n'
 
